@@ -233,6 +233,9 @@ func (f *Frame) specCall(st *State, e *ast.CallExpr, kind string) []*Term {
 		return []*Term{c.strLt(f.expr(st, e.Args[0]), f.expr(st, e.Args[1]))}
 	case kind == "strLower":
 		return []*Term{c.strLower(f.expr(st, e.Args[0]))}
+	case kind == "lastRPCErr":
+		h := c.heapGet(st, "G!lastRPCErr", ArrSort(SInt, SIfc))
+		return []*Term{Select(h, IntLit(0))}
 	case kind == "lastNow":
 		ts := c.sortOf(f.typeOf(e))
 		h := c.heapGet(st, "G!lastNow", ArrSort(SInt, ts))
@@ -802,7 +805,7 @@ func (f *Frame) checkFrame(st *State, entry *State, ct *Contract, ri int, where 
 		if !ok {
 			old = c.heapInit(h)
 		}
-		if same(cur, old) || h == "ALLOC" || strings.HasPrefix(h, "IT!") || strings.HasPrefix(h, "TX!") || h == "G!lastNow" {
+		if same(cur, old) || h == "ALLOC" || strings.HasPrefix(h, "IT!") || strings.HasPrefix(h, "TX!") || h == "G!lastNow" || h == "G!lastRPCErr" {
 			continue
 		}
 		whole := false
